@@ -18,6 +18,7 @@ func genC11(t *rapid.T) (schedCase, []opSpec) {
 	hot := rapid.SampledFrom(users[:2]).Draw(t, "hot")
 	known := map[string][]string{"old1": {"old1pw"}, "old2": {"old2pw"}, "cur1": {"cur1pw"}, "root": {"rootpw"}, "new1": nil}
 	tag := 0
+	webOps := rapid.IntRange(0, 2).Draw(t, "webops") == 0
 	nb := rapid.IntRange(1, 4).Draw(t, "batches")
 	for b := 0; b < nb; b++ {
 		parked := rapid.IntRange(0, 4).Draw(t, "parked") != 0
@@ -51,7 +52,17 @@ func genC11(t *rapid.T) (schedCase, []opSpec) {
 			case "list":
 				op.User = ""
 			}
+			if webOps && (kind == "auth" || kind == "update" || kind == "remove") {
+				op.Via = rapid.SampledFrom([]string{"", "basic", "api", "api"}).Draw(t, "via")
+				if kind != "auth" && op.Via == "basic" {
+					op.Via = "api"
+				}
+			}
 			c.Steps = append(c.Steps, step{Kind: "launch", Op: &op})
+		}
+		if parked && rapid.IntRange(0, 2).Draw(t, "wait") == 0 {
+			// time passes while the requests are queued (a busy dispatcher): nothing may be answered differently for that
+			c.Steps = append(c.Steps, step{Kind: "advance-parked", D: time.Duration(rapid.SampledFrom([]int{1, 6, 31, 61}).Draw(t, "waitsecs")) * time.Second})
 		}
 		c.Steps = append(c.Steps, step{Kind: "settle"})
 	}
@@ -60,7 +71,13 @@ func genC11(t *rapid.T) (schedCase, []opSpec) {
 	for _, u := range append(users, "root") {
 		for _, pw := range known[u] {
 			probes = append(probes, opSpec{Kind: "auth", User: u, PW: pw})
+			if webOps {
+				probes = append(probes, opSpec{Kind: "auth", User: u, PW: pw, Via: "basic"}, opSpec{Kind: "auth", User: u, PW: pw, Via: "api"})
+			}
 		}
+	}
+	if webOps {
+		vlib.Class("history:with-http-frontends")
 	}
 	probes = append(probes, opSpec{Kind: "list"}, opSpec{Kind: "check"})
 	return c, probes
